@@ -6,6 +6,7 @@
     LemmasTaggedSim  the checked evaluator (Checked.lean) is a memoisation of the pure one
     LemmasTaggedLe   the checked evaluator is Memo.lean's evaluator, except that it may give up
     LemmasTaggedTotal  same-fuel completeness of Memo.lean's evaluator
+    LemmasTaggedExact  same-fuel completeness of the exact evaluator (Checked.lean, strict = false)
 -/
 import SuppModel.Flow.Memo
 import SuppModel.Flow.Checked
@@ -15,3 +16,4 @@ import SuppModel.Flow.LemmasTagged
 import SuppModel.Flow.LemmasTaggedSim
 import SuppModel.Flow.LemmasTaggedLe
 import SuppModel.Flow.LemmasTaggedTotal
+import SuppModel.Flow.LemmasTaggedExact
